@@ -356,6 +356,25 @@ example :
       some (.awaitingCommand, none, errConTargetUnavailable) ∧
     (run init reRegisterHistory).registered = [] := by decide
 
+/-- one peer id in two spellings: the target registers it in UPPER case (stored under the canonical lower-case
+    key), connector 2 names the target in upper case, connector 3 in lower case -/
+def idAUpper : Bytes := List.replicate 64 65   -- "AAAA…"
+def spellingHistory : List Event :=
+  [.accept 1, .accept 2, .accept 3, .recv 1 (registerLine idAUpper),
+   .recv 2 (connectLine idB idAUpper), .recv 3 (connectLine idC idA)]
+
+set_option maxRecDepth 100000 in
+/-- CONNECT looks the target up (and erases it) under the spelling the connector wrote: the upper-case CONNECT
+    finds nothing and claims nothing, the lower-case one claims the peer and removes its registration.  Whatever
+    the spelling rules, `inv` says a *session* is never claimed twice; that a differently spelled id is "not found"
+    is a matter of reachability, which the property does not state. -/
+example :
+    ((run init spellingHistory).get 1).map (fun s => (s.state, s.partner, s.peerHex)) = some (.registered, some 3, idA) ∧
+    ((run init spellingHistory).get 2).map (fun s => (s.state, s.partner, s.writeBuf)) =
+      some (.awaitingCommand, none, errConTargetUnavailable) ∧
+    ((run init spellingHistory).get 3).map (fun s => (s.state, s.partner)) = some (.awaitingIdentity, some 1) ∧
+    (run init spellingHistory).registered = [] := by decide
+
 /-- the specification does reject the pairing table the unrepaired server reported for that history
     (`ss=1.R.3.0,2.I.1.0,3.I.1.0`): the predicates are not trivially true -/
 example : ¬ ClaimUnique [⟨1, false, some 3⟩, ⟨2, false, some 1⟩, ⟨3, false, some 1⟩] ∧
